@@ -207,11 +207,25 @@ const STD: [(Profile, u32); 6] = [
 ];
 
 pub fn world_engine(prop: &str, thorough: bool) -> Option<WorldEngine> {
+    // development aid: "LATExx" = the oracle of Cxx over the late-greeter profiles only
+    if let Some(n) = prop.strip_prefix("LATE") {
+        let base: &'static str = Box::leak(format!("C{n}").into_boxed_str());
+        let mut e = world_engine(base, thorough)?;
+        e.profiles = vec![(Profile::LateAny, 1), (Profile::LateShare, 1)];
+        return Some(e);
+    }
     let max_steps = if thorough { 48 } else { 24 };
     let e = match prop {
         "C01" => WorldEngine {
             prop: "C01",
-            profiles: STD.to_vec(),
+            profiles: {
+                // late greeters under operators other than merge! are beyond the stated quantifier; the
+                // statement's premise (conformant upstreams) covers them and the unchanged tree is quiet
+                let mut v = STD.to_vec();
+                v.push((Profile::LateAny, 5));
+                v.push((Profile::LateShare, 5));
+                v
+            },
             max_steps,
             oracle: |cx, _| oracle::c01(cx),
             nontrivial: nt_c01,
@@ -264,6 +278,7 @@ pub fn world_engine(prop: &str, thorough: bool) -> Option<WorldEngine> {
                 (Profile::Share, 10),
                 (Profile::ForEach, 10),
                 (Profile::Indep, 10),
+                (Profile::LateAny, 8),
             ],
             max_steps,
             oracle: |cx, _| oracle::c17(cx),
